@@ -15,16 +15,6 @@
 #include <stdint.h>
 #include <stdio.h>
 #include <limits.h>
-
-/* Verification hook (off in every normal build): loop contracts for the
- * deductive verifier are written as SECP256K1_VERIF_LOOP(<clauses>) between a
- * loop header and its body. Without SECP256K1_ZKP_VERIF it expands to nothing. */
-#ifdef SECP256K1_ZKP_VERIF
-# define SECP256K1_VERIF_LOOP(clauses) clauses
-#else
-# define SECP256K1_VERIF_LOOP(clauses)
-#endif
-
 #if defined(_MSC_VER)
 /* For SecureZeroMemory */
 #include <Windows.h>
